@@ -114,7 +114,8 @@ func ParseContracts(filename, pkgPath string, src []byte) (*PkgContracts, error)
 		text := it.text
 		loc := fmt.Sprintf("%s:%d", filename, it.line)
 		fields := strings.Fields(text)
-		switch fields[0] {
+		kw := strings.FieldsFunc(text, func(r rune) bool { return r == ' ' || r == '[' || r == '\t' })[0]
+		switch kw {
 		case "import":
 			pc.Imports = append(pc.Imports, strings.TrimSpace(strings.TrimPrefix(text, "import")))
 			cur = nil
